@@ -89,7 +89,7 @@ def bad(draw):
     if sum(ws) == 0:
         ws[0] = 1
     kind = draw(st.sampled_from(["both", "long", "short", "zero", "negative", "nan", "inf", "long-cum", "short-cum", "zero-cum",
-                                 "neg-cum", "inf-cum"]))
+                                 "neg-cum", "inf-cum", "overflow", "overflow", "nan-cum"]))
     return {"kind": kind, "id": draw(st.text(max_size=8)), "pop": [draw(_vals) for _ in range(n)], "tuple": draw(st.booleans()),
             "ws": ws, "unhashable": draw(st.integers(0, 3)) == 0, "wtuple": draw(st.integers(0, 2)) == 0}
 
@@ -170,6 +170,11 @@ def judge(case):
                 if _is_elem(u, pop) and u.i != (k * n) // refbucket.GRID:
                     tags.append("note:unweighted-differs-from-floor(u*n)")
             else:
+                if isinstance(cum[-1], float) and cum[-1] == int(cum[-1]) and cum[-1] < 2 ** 53:
+                    # hand-written running totals: fractional shares that end in a whole number written as an int (0.25, 0.5, 1)
+                    cum_arg = type(cum_arg)(list(cum_arg[:-1]) + [int(cum[-1])])
+                    cum = type(cum)(list(cum[:-1]) + [int(cum[-1])])
+                    tags.append("cum-weights-end-in-an-int")
                 random.seed(case["seed"])
                 a = dc(None, pop, ws_arg)
                 random.seed(case["seed"])
@@ -222,6 +227,11 @@ def judge(case):
             kw = {"weights": ws[:-1] + [float("nan")]}
         elif kind == "inf":
             kw = {"weights": ws[:-1] + [float("inf")]}
+        elif kind == "overflow":
+            # every weight is finite, their total is not (it overflows to inf): a non-finite total all the same
+            kw = {"weights": [1e308, 1e308] + [float(w) for w in ws[2:]]} if n >= 2 else {"weights": [float("inf")]}
+        elif kind == "nan-cum":
+            kw = {"cum_weights": cum[:-1] + [float("nan")]}
         elif kind == "long-cum":
             kw = {"cum_weights": cum + [cum[-1] + 1]}
         elif kind == "short-cum":
@@ -246,7 +256,7 @@ def judge(case):
                 pass  # the truncated / extended vector may itself be invalid (e.g. zero total): only a warm-up
         try:
             r = dc(case["id"], pop, **kw)
-            if kind == "nan":
+            if kind in ("nan", "nan-cum"):
                 # a NaN total is "not finite": the documented ValueError; random.choices raises ValueError too
                 viol.append("NaN total accepted, returned %r" % (r,))
             else:
@@ -345,7 +355,7 @@ def selftest():
 
 def optimised_cases():
     out = []
-    for kind in ["both", "long", "short", "zero", "negative", "nan", "inf", "long-cum", "short-cum", "zero-cum", "neg-cum", "inf-cum"]:
+    for kind in ["both", "long", "short", "zero", "negative", "nan", "inf", "long-cum", "short-cum", "zero-cum", "neg-cum", "inf-cum", "overflow", "nan-cum"]:
         for pop, ws in (([1, "a", None], [1, 2, 3]), ([0], [5]), (["x", "y"], [0, 4])):
             out.append({"kind": kind, "id": "u-%s" % kind, "pop": pop, "tuple": False, "ws": ws})
     out.append({"kind": "good", "id": "unit-1", "pop": [1, 2, 3], "tuple": True, "ws": [1, 0, 2.5], "c": 3, "seed": 1})
